@@ -45,6 +45,9 @@ class DefaultCaseBlockCompileHandler(
 ):
     """Handles a default block."""
 
+    # The previous case may fall through into this one.
+    _merge_single_jump_into_headers = False
+
     def __init__(self, ctx: ExplorerScriptParser.DefaultContext, compiler_ctx: CompilerCtx):
         super().__init__(ctx, compiler_ctx)
         self._added_string_handler: StringCompileHandler | None = None
